@@ -340,10 +340,13 @@ Qed.
 Lemma num_eqb_cmp : forall a b, num_eqb a b = match numeric_cmp a b with Some (Some Eq) => true | _ => false end.
 Proof. intros. unfold num_eqb, numeric_eq. destruct (numeric_cmp a b) as [[[| |]|]|]; reflexivity. Qed.
 
+Definition not_none (u : unit) : bool := negb (is_unit_none u).
+Lemma none_sweep : forallb not_none real_units = true.
+Proof. vm_compute. reflexivity. Qed.
 Lemma real_unit_not_none : forall u, In u real_units -> is_unit_none u = false.
 Proof.
-  intros u H. apply negb_true_iff.
-  exact (proj2 (proj1 (filter_In (fun u => negb (is_unit_none u)) u all_known_units) H)).
+  intros u H. pose proof (sweep1 real_units not_none none_sweep u H) as E.
+  unfold not_none in E. apply negb_true_iff in E. exact E.
 Qed.
 
 (* Numeric equality of two numbers with single known units is symmetric, convertible or not *)
@@ -370,7 +373,8 @@ Proof.
       rewrite !cmp_is_eq_mul_one. apply cmp_is_eq_sym.
     + change (cmp_is_eq x (fmul y s) = cmp_is_eq (fmul y s) x). apply cmp_is_eq_sym.
     + change (cmp_is_eq (fmul x t) y = cmp_is_eq y (fmul x t)). apply cmp_is_eq_sym.
-    + discriminate.
+    + apply andb_true_iff in D. destruct D as [D1 _]. apply is_one_eq in D1. subst s.
+      vm_compute in G1. discriminate G1.
 Qed.
 
 (* ---- strings: CssString equality is reflexive and symmetric (all stored values, all quotes) ---- *)
@@ -538,14 +542,34 @@ Proof.
     rewrite E1, E2. reflexivity.
 Qed.
 
-Definition all_aligned (a b : value) : Prop :=
-  forall x y, In x (numbers_of a) -> In y (numbers_of b) -> aligned x y = true.
+(* the unit sets of two numbers are equal, or one is unitless, or both are a single known unit
+   (convertible into each other or not) *)
+Definition sym_units (x y : numeric) : Prop :=
+  aligned x y = true \/
+  exists u v, In u real_units /\ In v real_units /\ nunit x = us_of_unit u /\ nunit y = us_of_unit v.
 
-Lemma veq_sym : forall a b, maps_le1 a = true -> maps_le1 b = true -> all_aligned a b -> veq a b = veq b a.
+Lemma num_eqb_sym_wide : forall x y, sym_units x y -> num_eqb x y = num_eqb y x.
+Proof.
+  intros [vx ux] [vy uy] [H|[u [v [Hu [Hv [E1 E2]]]]]].
+  - apply num_eqb_sym_aligned. exact H.
+  - cbn [nunit] in E1, E2. subst ux uy. apply num_eqb_sym_units; assumption.
+Qed.
+
+Definition all_sym_units (a b : value) : Prop :=
+  forall x y, In x (numbers_of a) -> In y (numbers_of b) -> sym_units x y.
+
+Lemma veq_sym : forall a b, maps_le1 a = true -> maps_le1 b = true -> all_sym_units a b -> veq a b = veq b a.
 Proof.
   intros a b Ha Hb H. apply veq_sym_general; try assumption.
-  intros x y Hx Hy. apply num_eqb_sym_aligned. apply H; assumption.
+  intros x y Hx Hy. apply num_eqb_sym_wide. apply H; assumption.
 Qed.
+
+Definition turn_254 : numeric := mkNum (of_bits 4612901990326777938) (us_of_unit (UK "Turn")).
+Definition deg_9144 : numeric := mkNum (of_bits 4651254363278488369) (us_of_unit (UK "Deg")).
+(* the former F31 witness: now the same answer in both directions *)
+Lemma former_witness_units :
+  veq (VNum turn_254 true) (VNum deg_9144 true) = veq (VNum deg_9144 true) (VNum turn_254 true).
+Proof. vm_compute. reflexivity. Qed.
 
 Definition one : numeric := mkNum (of_bits 4607182418800017408) [].
 Definition below_one : numeric := mkNum (of_bits 4607182418800017406) [].   (* 0.9999999999999998 *)
